@@ -28,6 +28,12 @@ CHECKS = {
     'C01': dict(tech=SYMX, ref='3/C01',
                 text='The real System.createPRISM() + PRISM.cost(x) are executed with symbolic densities, kT, dr (or dk), arbitrary potentials (fresh symbol per point), arbitrary tabulated omega and an arbitrary trial vector x; the solver proves, for every evaluation, (A) rho_pair*H = Omega C (Omega + rho_pair*H) entrywise at every k with Omega = user omega * site density, (B) each pair\'s real-space closure output equals that pair\'s published closure of gamma_in = x/r, that pair\'s u/kT and sigma, and directCorr(k) is its Riemann-sum transform, (C) y = r*(FT^-1(H-C) - x/r); PRISM.solve/System.solve with a nondeterministic root stub leave totalCorr (real space), directCorr, omega and minimize_result.fun equal to those of the returned point. Includes list-assigned tables, kT assigned after construction, explicit potential sigma, Domain built from dk. Bounded: rank 1-3, N=2-3.',
                 note='Trusted: numpy object arrays, z3, stubs (dst sine sums, adjugate inverse, root stub whose contract is validated concretely on scipy each run). The step from the residual to the closure discrepancy is a mean-value argument on paper. MS oracle = shipped expression (C09 known finding).'),
+    'C02': dict(tech=SYMX, ref='3/C02',
+                text='Structural part only: for a one-component system (real SingleSite omega, N=2-3, Domain from dr or dk, PY/HNC/MSA) the solver proves that every evaluation of cost imposes h(k)(1-rho c(k)) = c(k) with c(k) the Riemann sum 4 pi dr Sum r c(r) sin(k(r-dr/2))/k of that closure of gamma_in and u/kT, S = 1+rho h = 1/(1-rho c) (normalised and unnormalised), that at gamma=0 the closure output gives g = exp(-u/kT) (PY, HNC) resp. 1-u/kT outside / 0 inside (MSA) for every shipped potential with symbolic parameters and the residual is rho times a bounded expression (so gamma=0 is the rho->0 fixed point), and that second_virial on the dilute object is -c(k0)/2 with the 4 pi Riemann sum (sign and prefactor of -2 pi Int (e^{-u/kT}-1) r^2 dr).',
+                note='NOT decided: numerical agreement with Wertheim-Thiele and the O(dr) convergence rate (no SMT encoding of a fine-grid nonlinear solve; sampling is not this technique). The oracle is the current half-cell rectangle rule.'),
+    'C03': dict(tech=SYMX, ref='3/C03',
+                text='For every evaluation of the real cost(x) with arbitrary x, densities, kT, omega: at every grid point with r_i <= sigma of a hard-core pair the recorded closure output satisfies c + x/r = -1 exactly - all four closures with the flag over an arbitrary potential (every core size), PY and HNC without the flag over HardSphere/HardCoreLennardJones/Exponential using the IEEE fact exp(t)=0 for t<=-746 under the stated preconditions on high_value/kT, rank 2 with the hard pair in every position among arbitrary soft pairs, list-assigned tables, explicit potential sigma; on a solved object (root stub) totalCorr+1 = fun/r at core points.',
+                note='Preconditions are stated on the user parameters (high_value/kT >= 746; for HNC also high_value/kT - gamma >= 746). MSA/MS without the flag excluded as the property says. Root finder stubbed as in C01.'),
 }
 
 NOT_YET = {}
